@@ -18,7 +18,7 @@ import warnings
 
 import numpy as np
 
-from .. import real
+from .. import probe, real
 
 LEVEL = "exploration"
 TECHNIQUE = "runtime monitoring: acceptance vectors (isinstance verdict + bindings over NumPy/JAX/scalar/duck probes) of every generated annotation vs its round-tripped copy through pickle protocols 2-5, cloudpickle, copy, deepcopy - in the same process and loaded in a fresh child process; originals re-measured after dumping/loading; sibling annotations loaded together, kept alive, or loaded after the previous copy was garbage-collected; loads after the original changed state; copies made while checking was off"
@@ -75,7 +75,7 @@ def required_counters(tier):
         "route.pickle": 400,
         "route.copy": 100,
         "route.deepcopy": 100, "roundtrips.two_hops": 300,
-        "loads_after_state_change": 30, "roundtrips.made_while_checking_disabled": 30, "sibling_loads_after_previous_copy_was_collected": 200, "roundtrips.minimal_receiver": 100,
+        "loads_after_state_change": 30, "roundtrips.made_while_checking_disabled": 30, "sibling_loads_after_previous_copy_was_collected": 200, "roundtrips.minimal_receiver": 100, "interrupted_first_check.interrupted": 200,
     }
 
 
@@ -294,12 +294,83 @@ def _copies(ann):
     return out
 
 
+def arm_interrupted_first_check(rec, rng):
+    """the FIRST check ever made with an annotation is interrupted (KeyboardInterrupt / a signal-based timeout
+    arriving at some line inside the library - delivered here by a trace function at the k-th line event, every k):
+    afterwards the annotation still means what a freshly built equal one means, and so do its copies"""
+    import jaxtyping
+
+    N = np.ndarray
+    repo = os.path.realpath(os.environ.get("JTV_REPO", "/repo"))
+    small = [real.np_array(sh, dt) for dt in ("float32", "int32") for sh in ((), (3,), (2, 3), (2, 4), (4, 2, 3), (2, 3, 3))]
+
+    def vec(ann):
+        out = []
+        for x in small:
+            out.append(real.in_block_context(lambda: real.check(x, ann)))
+        return out
+
+    def run_interrupted(thunk, k):
+        cnt = [0]
+
+        def local(frame, event, arg):
+            if event == "line":
+                cnt[0] += 1
+                if cnt[0] == k:
+                    raise KeyboardInterrupt
+            return local
+
+        def tr(frame, event, arg):
+            return local if os.path.realpath(frame.f_code.co_filename).startswith(repo) else None
+
+        old = sys.gettrace()
+        sys.settrace(tr)
+        try:
+            thunk()
+            return "completed", cnt[0]
+        except KeyboardInterrupt:
+            return "interrupted", cnt[0]
+        finally:
+            sys.settrace(old)
+
+    specs = rng.sample(["... 3", "*b c", "a ... b", "2 *v", "#a *b 3", "a b", "_ ... 3", "a *b"], 3)
+    for spec in specs:
+        mk = lambda: jaxtyping.Float[N, spec]
+        ref = vec(mk())
+        first = real.np_array((2, 3))
+        # (the scope is entered before and left after the traced region: only the CHECK is interrupted - an interrupt
+        # delivered in the middle of entering a `with` block is outside what any library can make safe)
+        fresh0 = mk()
+        _, K = real.in_block_context(lambda: run_interrupted(lambda: isinstance(first, fresh0), 0))
+        for k in range(1, K + 1):
+            ann = mk()
+            how, _n = real.in_block_context(lambda: run_interrupted(lambda: isinstance(first, ann), k))
+            rec.count("interrupted_first_check." + how)
+            rec.case(("interrupted-first-check", spec, k), how == "interrupted")
+            got = vec(ann)
+            case = {"interrupted_first_check": spec, "line_event": k, "of": K}
+            if got != ref:
+                i = next(i for i, (a, b) in enumerate(zip(got, ref)) if a != b)
+                rec.violation("meaning-changed", case, f"Float[ndarray, {spec!r}]: its first check was interrupted at line event {k}/{K}; afterwards it answers {got[i]} for {probe.describe_value(small[i])}, a freshly built one {ref[i]}", mechanism="interrupted-first-check-changes-the-annotation")
+                return
+            try:
+                cp = pickle.loads(pickle.dumps(ann))
+            except Exception as e:  # noqa
+                rec.violation("roundtrip", case, f"after an interrupted first check the annotation cannot be pickled: {type(e).__name__}", mechanism="interrupted-first-check-breaks-pickling")
+                return
+            if vec(cp) != got:
+                rec.violation("meaning-changed", case, f"Float[ndarray, {spec!r}] after a first check interrupted at line event {k}/{K}: the pickle copy answers differently from the original", mechanism="interrupted-first-check-copy-differs")
+                return
+
+
 def run_shard(rec, seed, shard, tier):
     warnings.filterwarnings("ignore")
     if shard.get("i", 0) % 4 == 1:
         # array types whose instances change over time (late ABC registration, protocols with data members, proxies):
         # the original and its copies answer alike at every moment
         real.array_type_membership_probe(rec, "C20", copies=_copies)
+    if shard.get("i", 0) % 4 == 3:
+        arm_interrupted_first_check(rec, random.Random(f"{seed}/C20/{shard['i']}/interrupted"))
     scratch = tempfile.mkdtemp(prefix="jtv_c20_")
     try:
         with open(os.path.join(scratch, "jtv_user_cats.py"), "w") as f:
